@@ -233,6 +233,12 @@ class Interrupt(BaseException):
     def revoke(self):
         r"""Revoke the interrupt, cancelling any pending activation with it"""
         self._revoked = True
+        # a revoked interrupt is never raised (again): drop the frames it was
+        # raised through, or the reference cycle interrupt -> traceback -> frame
+        # -> interrupt keeps every local of the interrupted activity alive until
+        # the garbage collector runs - including async iterators whose cleanup
+        # revokes their own pending wake-up
+        self.__traceback__ = None
 
     def __repr__(self):
         return "<{}.{} token{} @{}: {}>".format(
